@@ -76,14 +76,20 @@ def apply_T(T, g):
 def lockstep(run, rnd, thorough):
     """Two runs of the code: optimize(tol=0, max_iter=k) on g and on T*g, k = 1..5, T generic with large translations."""
     n = 0
-    for name in ('se2', 'se3', 'r2', 'r3', 'se2b', 'se3b', 'se2c', 'r2c', 'se3c'):      # (..c: with user-defined edges on numerical Jacobians)
+    # (..c: with user-defined edges on numerical Jacobians; ..f: started FAR from the optimum, so that chi^2 rises along the way -- un-damped
+    #  Gauss-Newton is frame independent wherever it goes)
+    for name in ('se2', 'se3', 'r2', 'r3', 'se2b', 'se3b', 'se2c', 'r2c', 'se3c', 'se2f', 'se3f'):
         for rep in range(6 if thorough else 2):
             seed = rnd.randrange(10 ** 6)
-            kind = {'se2': 'SE2', 'se3': 'SE3', 'r2': 'R2', 'r3': 'R3', 'se2b': 'SE2', 'se3b': 'SE3', 'se2c': 'SE2', 'r2c': 'R2', 'se3c': 'SE3'}[name]
-            es, vs, _ = graphs.make(kind, seed, custom=name.endswith('c'), n_landmarks=2, n_poses=(8 if name.endswith('b') else 5), closures=3, noise=0.05 if rep % 2 else 0.0)
+            kind = {'se2': 'SE2', 'se3': 'SE3', 'r2': 'R2', 'r3': 'R3', 'se2b': 'SE2', 'se3b': 'SE3', 'se2c': 'SE2', 'r2c': 'R2', 'se3c': 'SE3', 'se2f': 'SE2', 'se3f': 'SE3'}[name]
+            far = name.endswith('f')
+            es, vs, _ = graphs.make(kind, seed, custom=name.endswith('c'), n_landmarks=2, n_poses=(8 if name.endswith('b') else 5), closures=3, noise=0.05 if rep % 2 else 0.0,
+                                    dt=(2.5 if far else 0.2), dr=(1.5 if far else 0.1), cross=True)
             # (of the user-defined edges only those that measure something relative are frame independent: range and relative pose)
             es = [e for e in es if not isinstance(e, (graphs.PriorEdge, graphs.MidpointEdge))]
             mag = rnd.choice([1.0, 1e3, 1e6]) if not name.endswith('c') else [3e3, 1e3, 1.0][rep % 3]
+            if far:
+                mag = 10.0
             if kind == 'SE2':
                 T = B.CLS_OF[kind]([rnd.uniform(-mag, mag), rnd.uniform(-mag, mag)], rnd.choice([rnd.uniform(-3.1, 3.1), math.pi - 1e-3, -math.pi + 1e-3, 3.0]))
             elif kind == 'SE3':
@@ -124,6 +130,10 @@ def lockstep(run, rnd, thorough):
                         else:
                             dr = 0.0
                         run.dev(max(dt / (1 + mag), dr) / amp * 1e-3)
+                        if far:
+                            run.notes['lockstep_far_max_dev'] = [max(a, b) for a, b in zip(run.notes.get('lockstep_far_max_dev', [0.0, 0.0]), [dt / (1 + mag), dr])]
+                            run.notes['lockstep_far_rising_runs'] = run.notes.get('lockstep_far_rising_runs', 0) + int(any(
+                                r1.iteration_results[j + 1].chi2 > r1.iteration_results[j].chi2 for j in range(len(r1.iteration_results) - 1)))
                         if name.endswith('c'):
                             run.notes['lockstep_numerical_jacobians_max_dev'] = [max(a, b) for a, b in zip(run.notes.get('lockstep_numerical_jacobians_max_dev', [0.0, 0.0]), [dt / (1 + mag), dr])]
                         # (numerical Jacobians, |t_T| <= 3e3: the frame enters through rounding of the forward difference only, ~1e-16*|t_T|/1e-6 in
